@@ -21,6 +21,8 @@ for i in ids:
         text = text + " " + R4[i]
     if i in globals().get('R5', {}):
         text = text + " " + R5[i]
+    if i in globals().get('R6', {}):
+        text = text + " " + R6[i]
     checks.append({
         "property_id": i,
         "quick_cmd": f"bin/vcheck -property {i} -tier quick",
